@@ -309,6 +309,13 @@ def run(prog, check):
         for f_ in acc[role]:
             check_accessor(prog, check, f_, role, summ, pid_rules=(None, 'C19.R4'))
     check.floor('C19.R4', 1)
+    # the header names the series of the block that was solved: the solver's variable list is rebuilt when a new block is parsed
+    # (the clause C17.R1 decides; a stale list seeds columns of a block that is gone and breaks the horizon+1 rows)
+    if not getattr(check, '_borrowing', False):
+        from ..report import Borrowed
+        from . import C17 as _c17
+        b17 = Borrowed(check, lambda rule, key: rule == 'C17.R1', 'C19.R3', 'one solver object given a second, different block and solved again')
+        _c17.run(prog, b17)
     check.floor('C19.R1', 3)
     check.floor('C19.R2', 7)
     check.floor('C19.R3', 1)
